@@ -870,6 +870,9 @@ def run_shard(spec):
     for i, ast in enumerate(pairs):
         if i % nsh == idx:
             expr_case(mon, obs, ast, rng, "pairs")
+    # ---- #expr, documented result domain of logical / comparison operators (shard 0 only: a fixed grid)
+    if idx == 0:
+        primitive_cases(mon, obs)
     # ---- #expr, random part
     for i in range(p["expr_rand"]):
         d = 2 + (i % 4)
@@ -910,10 +913,66 @@ def run_shard(spec):
     return obs
 
 
+# =============================================================================== documented primitive values
+# The AST monitor above takes the implementation's own operator tables as given (it decides precedence and
+# associativity).  The logical and comparison operators additionally have a documented RESULT DOMAIN: they yield
+# 1 or 0 (Help:Extension:ParserFunctions, #expr: "and/or/not ... return 1 or 0", comparisons likewise).  That small
+# contract is checked independently here, over an operand grid including values other than 0 and 1.
+PRIM_OPERANDS = ["0", "1", "2", "3", "-1", "0.5", "-0.5", "10", "(1+1)", "(2-2)", "0.0"]
+
+
+def prim_expected(op, a, b):
+    x = eval(a)
+    y = eval(b) if b is not None else None
+    if op == "and":
+        return 1 if (x != 0 and y != 0) else 0
+    if op == "or":
+        return 1 if (x != 0 or y != 0) else 0
+    if op == "not":
+        return 1 if x == 0 else 0
+    return int({"=": x == y, "!=": x != y, "<>": x != y, "<": x < y, ">": x > y, "<=": x <= y, ">=": x >= y}[op])
+
+
+def primitive_cases(mon, obs):
+    for op in ("and", "or", "=", "!=", "<>", "<", ">", "<=", ">="):
+        for a in PRIM_OPERANDS:
+            for b in PRIM_OPERANDS:
+                text = "{{#expr:%s %s %s}}" % (a, op, b)
+                st, got = mon.expand(text)
+                obs.check("expr.logic-comparison-yields-0-or-1")
+                exp = str(prim_expected(op, a, b))
+                obs.case(text, nontrivial=True)
+                if st != "ok" or got.strip() != exp:
+                    obs.violation("expr/primitive-value/%s/result-not-documented-0-or-1" % ("logical" if op in ("and", "or") else "comparison"),
+                                  "%s -> %r, documented value %s" % (text, got, exp), {"family": "primitive", "text": text, "exp": exp})
+    for a in PRIM_OPERANDS:
+        text = "{{#expr:not %s}}" % a
+        st, got = mon.expand(text)
+        obs.check("expr.logic-comparison-yields-0-or-1")
+        exp = str(prim_expected("not", a, None))
+        obs.case(text, nontrivial=True)
+        if st != "ok" or got.strip() != exp:
+            obs.violation("expr/primitive-value/not/result-not-documented-0-or-1", "%s -> %r, documented value %s" % (text, got, exp),
+                          {"family": "primitive", "text": text, "exp": exp})
+    # the logical result also feeds other functions
+    for n, e in (("1 and 5", "one"), ("0 or 0", "many"), ("2 and 3", "one")):
+        text = "{{plural:%s|one|many}}" % n
+        st, got = mon.expand(text)
+        obs.check("expr.logic-comparison-yields-0-or-1")
+        if st != "ok" or got.strip() != e:
+            obs.violation("expr/primitive-value/logical/result-not-documented-0-or-1", "%s -> %r, expected %s" % (text, got, e),
+                          {"family": "primitive", "text": text, "exp": e})
+
+
 # =============================================================================== replay
 def replay(case):
     obs = Obs()
     fam = case["family"]
+    if fam == "primitive":
+        mon = Mon(obs)
+        st, got = mon.expand(case["text"])
+        mon.close()
+        return {"violations": [] if (st == "ok" and got.strip() == case["exp"]) else ["expr/primitive-value"], "got": got, "expected": case["exp"]}
     if fam == "formatnum":
         loc = dict(locales())[case["lang"]]
         mon = Mon(obs, lang=case["lang"])
